@@ -339,6 +339,7 @@ def _phases(ctx):
         ctx.check(st["migrating"].get(s) == want_m.get(s), "C03.D5", "migrating:%s" % s, site(st["bodies"]["migrating"]), ok="source in %s: %s" % (s, st["migrating"].get(s)), bad="source proxy in %s routes `%s` (expected %s)" % (s, st["migrating"].get(s), want_m.get(s)))
         ctx.check(st["importing"].get(s) == want_i.get(s), "C03.D5", "importing:%s" % s, site(st["bodies"]["importing"]), ok="destination in %s: %s" % (s, st["importing"].get(s)), bad="destination proxy in %s routes `%s` (expected %s)" % (s, st["importing"].get(s), want_i.get(s)))
     _hint_table(ctx, st)
+    _switch_vs_send(ctx, st, "C03.D5")
     # AtomicMigrationState get_state . set_state = id on all variants
     F = ctx.F
     gs = F.one("AtomicMigrationState::get_state"); ss = F.one("AtomicMigrationState::set_state")
@@ -516,3 +517,22 @@ def _pull_transitions(ctx):
                 ctx.check(not reach, R, "del-after-restore:%s" % vname, site(b, sb), ok="no DEL after a %s reply" % vname, bad="a %s reply to RESTORE leads to the source-side DEL" % vname)
     if not found:
         ctx.lost(R, "del-after-restore", "no switch over the RESTORE reply dominates the DEL construction")
+
+
+def _switch_vs_send(ctx, st, rule):
+    """the state the destination installs for each handshake step agrees with its own routing table: it keeps sending
+    clients back to the source until PRESWITCH (the source executes locally up to then), and serves from PRESWITCH on"""
+    r = _migtables.switch_table(ctx, rule)
+    if r is None:
+        return
+    table, b = r
+    want = {"PreCheck": "redirect-src", "PreSwitch": "serve", "FinalSwitch": "serve"}
+    for sub, state in sorted(table.items()):
+        out = st["importing"].get(state)
+        exp = want.get(sub)
+        if exp is None:
+            ctx.info(rule, "handshake-step:%s" % sub, "sub-command %s installs %s" % (sub, state))
+            continue
+        ctx.check(out == exp, rule, "handshake-step:%s" % sub, site(b), ok="%s installs %s in which the destination routes `%s`" % (sub, state, out),
+                  bad="on %s the destination installs state %s, in which it routes `%s` (expected `%s`): between PRECHECK and PRESWITCH both proxies would execute commands of the migrating slots" % (sub, state, out, exp))
+    ctx.check(table.get("FinalSwitch") == "SwitchCommitted", rule, "handshake-step:FinalSwitch-commits", site(b), ok="FINALSWITCH installs SwitchCommitted", bad="FINALSWITCH installs %s" % table.get("FinalSwitch"))
